@@ -4,13 +4,13 @@ F = ["p_dvi"]
 LOSSY = "std::string::String::from_utf8_lossy -> ASCII identity model (std is trusted base; its UTF-8 validation loop on symbolic bytes does not finish under CBMC)"
 
 
-def rt(name, bound, tier="quick", timeout=300, stubs=None, **kw):
+def rt(name, bound, tier="quick", timeout=300, stubs=None, funcs=None, **kw):
     return dict(engine="A", module="c16_dvi", name=name, features=F, tier=tier, timeout=timeout,
-                funcs=SER + DE, bound=bound, stubs=stubs or [], **kw)
+                funcs=funcs or (SER + DE), bound=bound, stubs=stubs or [], **kw)
 
 
 PROP = {
-    "title": "DVI encoding round-trips; variable removal preserves every position",
+    "title": "DVI encoding round-trips; decoder is total (variable removal NOT decided)",
     "explanation": (
         "Round trip is decided per opcode class with every operand fully symbolic and an arbitrary suffix after the "
         "encoding: decode(enc(op) ++ suffix) = (op, suffix). By induction over the number of operations this is the "
@@ -21,6 +21,8 @@ PROP = {
         "fnt_def: only the (form, area length, name length) combinations instantiated; string contents concrete there",
         "xxx payloads longer than 2 bytes (xxx2..xxx4 forms need >= 256 payload bytes)",
         "post_post with more than 7 padding bytes",
+        "decoder totality for the string-carrying opcodes (xxx1-4, fnt_def1-4, pre: symbolic string lengths make the memcpy post-processing exceed memory) and for set_char/fnt_num single-byte opcodes (covered by the round trips)",
+        "transforms::VarRemover / Values::update ('rewriting a stream to avoid w,x,y,z preserves every position'): NOT decided. dvi::Values clones and compares nested heap vectors; CBMC ran out of memory on 3 symbolic operations (10 min), on 4 (19 min), and a shape-enumerating variant (36 shapes of 3 operations) did not finish in 30 min. A regression there is not detected by this check.",
     ],
     "assumptions": ["Kani/CBMC model of the Rust semantics and of alloc (Vec/String) is trusted", "rustc MIR as compiled by Kani's pinned toolchain, dev profile with overflow checks"],
     "obligations": [
@@ -43,6 +45,14 @@ PROP = {
         rt("c16_rt_end_postamble", "0..=7 padding bytes; arbitrary non-223 suffix", assumes=["post_post: the byte after the padding is not 223"]),
         rt("c16_rt_extension_short", "xxx1 with 0..=2 arbitrary payload bytes"),
         rt("c16_rt_preamble", "pre with every numeric field symbolic and a comment of 0..=2 symbolic ASCII bytes", stubs=[LOSSY]),
+        rt("c16_total_char_forms", "opcodes 128..=137 x every length 1..=6 x all remaining bytes symbolic", funcs=DE, timeout=900),
+        rt("c16_total_motion_forms", "opcodes 143..=170 x every length 1..=6 x all remaining bytes symbolic", funcs=DE, timeout=900),
+        rt("c16_total_font_forms", "opcodes 235..=238 x every length 1..=6", funcs=DE, timeout=900),
+        rt("c16_total_invalid_opcodes", "opcodes 250..=255: always InvalidOpCode", funcs=DE, timeout=900),
+        rt("c16_total_rule_forms", "set_rule x every length 1..=10 (all truncations)", funcs=DE, timeout=900),
+        rt("c16_total_end_postamble", "post_post x every length 1..=10", funcs=DE, timeout=900),
+        rt("c16_total_begin_postamble", "post x every length 1..=30 (all truncations)", funcs=DE, tier="thorough", timeout=1200),
+        rt("c16_total_bop_and_post", "bop x every length 1..=46 (all truncations)", funcs=DE, tier="thorough", timeout=1200),
         rt("c16_rt_define_font_1_a0n2", "fnt_def1, every number<256/checksum/sizes; area len 0, name len 2 (concrete bytes)", tier="thorough", timeout=900, stubs=[LOSSY]),
         rt("c16_rt_define_font_1_a2n1", "fnt_def1; area len 2, name len 1", tier="thorough", timeout=900, stubs=[LOSSY]),
         rt("c16_rt_define_font_2_a1n1", "fnt_def2, every 2-byte number; area len 1, name len 1", tier="thorough", timeout=900, stubs=[LOSSY]),
